@@ -237,3 +237,41 @@ _add("C37", "keys", "mutation fuzzing (" + PBT + " + coverage-guided atheris in 
      "from_private_key(StringIO) / from_private_key_file on mutated files with password None/right/wrong, also loaded with the wrong class: either SSHException (incl. PasswordRequiredException) or a key that signs and whose "
      "signature verifies under its own public encoding and under the independent verifier. Buckets = class / exception / source line.",
      "bcrypt.kdf is memoised and capped at 64 rounds by the harness (more would only burn CPU; counted as excluded). PKey.from_path is not fuzzed. atheris is optional (thorough only).")
+
+_add("C05", "net+peers+mitm+refssh", PBT + ": generated preference permutations / disabled sets / host-key subsets / moduli on-off / synthetic KEXINITs; oracle = RFC 4253 7.1 rule computed from the two wire payloads by the independent reference",
+     "Three sub-domains: each side's real KEXINIT fed to the other's _parse_kex_init; one real side against a refssh-built KEXINIT with unknown, duplicate, empty and pseudo-algorithm names at arbitrary positions; "
+     "a sample run as full threaded handshakes. Per category the agreed name must be the first client name the server also offers, both peers agree, it is not disabled locally, IncompatiblePeer iff some category has no common name, "
+     "pseudo-names are never selected.", "Sampled, not exhaustive. The reference sees exactly the bytes on the wire.")
+_add("C06", "net+peers+mitm+refssh", PBT + ": honest sessions over all kex x host-key algorithms with rekeys (exchange hash recomputed per RFC, signature verified with cryptography) + PlainMitm single-field faults (client must abort before NEWKEYS)",
+     "Honest: K and H equal on both peers for every exchange, the RFC exchange hash recomputed by the harness from the decoded wire equals H, the signature verifies over H under the shown host key with `cryptography` directly, session id "
+     "fixed by the first exchange. Faults through PlainMitm: bit flips by structural region of K_S / f / Q_S / signature, substituted public values, swapped host keys, replayed replies, altered gex p/g.",
+     "Fault edits touch the initial (plaintext) exchange only; non-canonical re-encodings of a field are not generated.")
+_add("C07", "net+peers+mitm", "exhaustive enumeration (finite domain) + " + PBT + " repetitions: role x negotiated/declared algorithm x signature algorithm x enabled subset; lying host key object / hand-built USERAUTH_REQUEST",
+     "For RSA (ssh-rsa, rsa-sha2-256, rsa-sha2-512, cert variants) every (negotiated or declared, signature algorithm, enabled subset) combination, plus mislabelled / other-curve / other-type ECDSA and Ed25519 cases, in both roles: "
+     "accepted iff the signature's algorithm equals the negotiated/declared one and is enabled on the verifier.",
+     "exhaustive=true over the stated 302-case domain. Only RSA certificates are covered for the cert variants.")
+_add("C08", "net+peers+mitm", PBT + ": role x kex x boundary/random public values delivered by PlainMitm edits, by a lying server holding the host key (re-signing predictable-secret replies), or by a harness moduli pack",
+     "DH e/f in {0,1,2,p-2,p-1,p,p+1,2p,negative,random}, EC points empty/wrong length/prefix/off-curve/other curve/compressed, X25519 small-order encodings and wrong lengths, gex primes of 512..16384 bits and degenerate g: "
+     "any value outside the accepted domain means the handshake fails without NEWKEYS on the tested side.",
+     "Client role with invalid NIST points: the abort is masked by signature failure (K unpredictable), so that clause is exercised but not sensitive there. Negative gex moduli are not generated (endless _generate_x loop, outside the property). "
+     "The curve25519 zero-check removal is an expected survivor (cryptography itself rejects the all-zero result).")
+_add("C09", "net+peers+mitm+refssh", PBT + "/enumeration: PlainMitm injection at every handshake position x injected type x role x kex x strict flags + Terrapin inject/delete shapes; every MAC verified independently by the Tap under the demanded numbering",
+     "Both strict: any injected IGNORE/DEBUG/UNIMPLEMENTED/unknown/second KEXINIT/SERVICE_REQUEST before the initial exchange completes ends the connection; un-faulted strict sessions: the first packet after every NEWKEYS in both "
+     "directions verifies under sequence number 0 (running count when strict was not agreed), across rekeys.",
+     "Strict mode is decided from the wire KEXINITs. Only non-AEAD suites are used for the seqno oracle (GCM does not depend on the sequence number). Quick runs the full product for two kex methods, thorough for all.")
+_add("C29", "sftpenv+sftpwatch", "fault enumeration: put/putfo/get/getfo/pipelined-file transfers with the k-th (or every) WRITE/READ answered by SFTP error codes or short reads; exact-or-raises oracle",
+     "Sizes 0..1 MiB around 32 KiB boundaries, prefetch on/off, max_concurrent_prefetch_requests, confirm on/off, callbacks, short local reads: the call raises, or destination bytes == source bytes (size and return value too); "
+     "a rejected write on a pipelined file surfaces by close(). Blocked calls are decided by a deadlock proof (or 30 s without link traffic, 3 times).",
+     "exhaustive (thorough) for every single failing chunk position x code on files of 1..8 chunks. SFTP_EOF as a read fault, dropped writes and same-size corruption are outside the fault model.",
+     category="fault_enumeration")
+_add("C30", "sftpenv+sftpwatch", PBT + ": raw-client request-stream fuzzing against an id-multiset + SFTP v3 allowed-type table + strict response parser; generated client programs with deadlock proof",
+     "(A) streams of <= 60 requests: all command numbers, handle states, hostile paths and attrs, truncated/oversized encodings, every extended request; every request id answered exactly once with an allowed type, sentinel answered "
+     "within 10 s (read-count / stack-sampling guards turn non-termination into a verdict). (B) single-threaded SFTPClient programs mixing pipelined writes, prefetches and other requests: never blocks forever although the server answered everything.",
+     "Packets without a complete request id carry no obligation and are not generated. Time-based verdicts are retried twice.")
+
+_add("C38", "net+peers+refssh", "structured protocol fuzzing (" + PBT + "): per-message field grammar + 0-3 mutations, 5 session families, both roles; exception-class oracle bucketed by innermost paramiko frame",
+     "Families: pre (harness plays the peer with raw bytes before NEWKEYS: banner lines, KEXINIT, method-specific kex messages of every engine, NEWKEYS, DISCONNECT), post (authenticated session with open channel, puppet sends mutated "
+     "transport/auth/connection messages), authc (tested client inside auth_none/password/publickey/interactive incl. ServiceRequestingTransport, server volunteers EXT_INFO and answers with mutated messages), auths (tested server, mutated "
+     "SERVICE_REQUEST/USERAUTH_REQUEST/INFO_RESPONSE with degenerate key blobs, pre-auth connection messages), wire (corrupted ciphertext per cipher class, undecompressable zlib). Whatever start_client/start_server/auth_* raise and get_exception() "
+     "returns must be SSHException, EOFError or OSError.",
+     "A 2 s silence after a probe is recorded as inconclusive (hang), never as a violation. SSHClient.connect is covered through Transport.start_client/auth_* (what it delegates to), not called directly.")
